@@ -202,3 +202,9 @@ Proof.
   exists [1], [1 # 2]. split; [reflexivity|]. split; [|vm_compute; reflexivity].
   intros x [<-|[]] H. discriminate H.
 Qed.
+
+(* ------------------------------------------------------------------ normal forms used by the Examples of Properties.v *)
+Definition nrmD (r : res dense) : option (nat * nat * list Q) :=
+  match r with Ok d => Some (nr d, nc d, map Qred (dat d)) | _ => None end.
+Definition nrmV (r : res (list Q)) : option (list Q) := match r with Ok v => Some (map Qred v) | _ => None end.
+Definition nrmO (r : option (list Q)) : option (list Q) := match r with Some v => Some (map Qred v) | None => None end.
